@@ -23,6 +23,20 @@ def _prep():
     return plt
 
 
+_SEED = 20260928
+
+
+def _rng_state():
+    k, keys, pos, has_gauss, cached = np.random.get_state()
+    return (k, keys.tobytes(), int(pos), int(has_gauss), float(cached))
+
+
+def _peek(state):
+    r = np.random.RandomState()
+    r.set_state((state[0], np.frombuffer(state[1], dtype=np.uint32), state[2], state[3], state[4]))
+    return float(r.uniform())
+
+
 def all_plot_names():
     from nuspacesim.utils.plot_function_registry import registry
     return sorted(registry)
@@ -34,19 +48,32 @@ def check(ctx, site: str, call, describe: dict, spellings=("list",)):
     import warnings
     plt = _prep()
     names = all_plot_names()
+    np.random.seed(_SEED)
     base = call(None)
+    state0 = _rng_state()
     base = tuple(np.array(x, copy=True) for x in (base if isinstance(base, tuple) else (base,)))
     for sp in spellings:
         req = names if sp == "list" else (names[0] if names else None)
         with warnings.catch_warnings():
             warnings.simplefilter("ignore")
             try:
+                np.random.seed(_SEED)
                 got = call(req)
+                state1 = _rng_state()
             finally:
                 plt.close("all")
         got = tuple(np.asarray(x) for x in (got if isinstance(got, tuple) else (got,)))
         ctx.case(("plots-inert", site, sp), None)
         ctx.count("plots_inert_calls")
+        if state1 != state0:
+            # the stage leaves numpy's global generator somewhere else when plots are requested: whatever draws next (the decay
+            # deviates after the tau stage, the next stage of a run) then gets other numbers - or the very numbers this stage used
+            ctx.violation(site, "random-stream-changes-when-plots-are-requested",
+                          "after the stage numpy's global generator is in a different state when its optional plots are requested "
+                          "(same inputs, same seed): the deviates the following stage draws are not the ones it draws without plots",
+                          {**describe, "plots": req if isinstance(req, list) else [req], "seed": _SEED,
+                           "next_uniform_without_plots": _peek(state0), "next_uniform_with_plots": _peek(state1)})
+            return False
         bad = [i for i, (a, b) in enumerate(zip(base, got)) if a.shape != b.shape or not np.array_equal(a, b, equal_nan=True)]
         if len(base) != len(got) or bad:
             i = bad[0] if bad else -1
